@@ -613,8 +613,34 @@ func (self *Analyzer) TypeCheck(got ast.Type, expected ast.Type, options TypeChe
 				}
 			}
 		case ast.VarArgsFunctionTypeParamKindIdentifierKind:
-			// TODO: ...
-			panic("TODO: implement or remove this")
+			// both functions take a variable number of arguments: the fixed leading parameters and the remaining type must agree
+			expectedVarArgs := expectedFn.Params.(ast.VarArgsFunctionTypeParamKindIdentifier)
+			gotVarArgs := gotFn.Params.(ast.VarArgsFunctionTypeParamKindIdentifier)
+
+			if len(expectedVarArgs.ParamTypes) != len(gotVarArgs.ParamTypes) {
+				return newCompatibilityErr(
+					diagnostic.Diagnostic{
+						Level:   diagnostic.DiagnosticLevelError,
+						Message: fmt.Sprintf("Expected %d leading parameters, got %d", len(expectedVarArgs.ParamTypes), len(gotVarArgs.ParamTypes)),
+						Notes:   nil,
+						Span:    gotFn.ParamsSpan,
+					},
+					nil,
+				)
+			}
+
+			paramOptions := options
+			paramOptions.GotAnyIsRuntimeChecked = true
+
+			for idx, expectedParamType := range expectedVarArgs.ParamTypes {
+				if err := self.TypeCheck(gotVarArgs.ParamTypes[idx], expectedParamType, paramOptions); err != nil {
+					return err
+				}
+			}
+
+			if err := self.TypeCheck(gotVarArgs.RemainingType, expectedVarArgs.RemainingType, paramOptions); err != nil {
+				return err
+			}
 		default:
 			panic("A new function parameter type kind was introduced without updating this code")
 		}
